@@ -143,6 +143,10 @@ pub struct Target<'a> {
     pub replay: fn(&str, &[u8]) -> Report,
     pub nontrivial: fn(&str, &[u8]) -> bool,
     pub sample: Option<fn(&[u8]) -> Value>,
+    /// true = 16 independent libFuzzer processes sharing the corpus directory (-jobs/-workers)
+    /// instead of fork mode: better when one execution costs milliseconds, because fork mode
+    /// re-runs its corpus subset at the start of every short job
+    pub jobs_mode: bool,
 }
 
 fn play_nontrivial(_prop: &str, data: &[u8]) -> bool {
@@ -151,7 +155,7 @@ fn play_nontrivial(_prop: &str, data: &[u8]) -> bool {
 
 /// Run a libFuzzer campaign with the prebuilt target and re-judge every artifact.
 pub fn campaign(ctx: &Ctx, prop: &str, rep: &mut Report) {
-    let t = Target { bin_env: "RCE_FUZZ_BIN", max_len: 384, seed_dir: ctx.verif.join("corpus").join("fuzz_play"), dict: None, replay: replay_raw, nontrivial: play_nontrivial, sample: None };
+    let t = Target { bin_env: "RCE_FUZZ_BIN", max_len: 384, seed_dir: ctx.verif.join("corpus").join("fuzz_play"), dict: None, replay: replay_raw, nontrivial: play_nontrivial, sample: None, jobs_mode: false };
     campaign_on(ctx, prop, rep, &t);
 }
 
@@ -173,13 +177,16 @@ pub fn campaign_on(ctx: &Ctx, prop: &str, rep: &mut Report, t: &Target) {
     if let Some(d) = &t.dict {
         cmd.arg(format!("-dict={}", d.display()));
     }
+    if t.jobs_mode {
+        cmd.arg("-jobs=16").arg("-workers=16").arg("-reload=1").current_dir(&work);
+    } else {
+        cmd.arg(format!("-fork={}", 16)).arg("-ignore_crashes=1");
+    }
     let out = cmd
-        .arg(format!("-fork={}", 16))
         .arg(format!("-max_total_time={secs}"))
         .arg(format!("-seed={}", (ctx.seed % 0xffff_fffe) + 1))
         .arg("-len_control=0")
         .arg(format!("-max_len={}", t.max_len))
-        .arg("-ignore_crashes=1")
         .arg(format!("-artifact_prefix={}/", art.display()))
         .arg(&corpus_dir)
         .arg(&seed_dir)
@@ -193,21 +200,46 @@ pub fn campaign_on(ctx: &Ctx, prop: &str, rep: &mut Report, t: &Target) {
     match out {
         Err(e) => rep.note(format!("libFuzzer campaign could not start: {e}")),
         Ok(o) => {
-            let err = String::from_utf8_lossy(&o.stderr);
+            let mut err = String::from_utf8_lossy(&o.stderr).to_string();
+            let mut job_execs = 0u64;
+            if t.jobs_mode {
+                // every job writes its own log; executions add up over the jobs
+                if let Ok(rd) = std::fs::read_dir(&work) {
+                    for f in rd.flatten() {
+                        let name = f.file_name().to_string_lossy().to_string();
+                        if name.starts_with("fuzz-") && name.ends_with(".log") {
+                            if let Ok(text) = std::fs::read_to_string(f.path()) {
+                                let mut last = 0u64;
+                                for l in text.lines() {
+                                    if let Some(rest) = l.strip_prefix('#') {
+                                        if let Some(n) = rest.split(|c: char| !c.is_ascii_digit()).next().and_then(|n| n.parse::<u64>().ok()) {
+                                            last = last.max(n);
+                                        }
+                                    }
+                                }
+                                job_execs += last;
+                                err.push_str(&text);
+                            }
+                        }
+                    }
+                }
+            }
             // "#12345: cov: 678 ft: 910 corp: 11 exec/s 345 ..."
             let mut execs = 0u64;
             let mut cov = 0u64;
             for l in err.lines() {
                 if let Some(rest) = l.strip_prefix('#') {
-                    if let Some((n, tail)) = rest.split_once(':') {
-                        if let Ok(n) = n.trim().parse::<u64>() {
-                            execs = execs.max(n);
-                            if let Some(c) = tail.split_whitespace().skip_while(|t| *t != "cov:").nth(1) {
-                                cov = cov.max(c.parse().unwrap_or(0));
-                            }
+                    let digits: String = rest.chars().take_while(|c| c.is_ascii_digit()).collect();
+                    if let Ok(n) = digits.parse::<u64>() {
+                        execs = execs.max(n);
+                        if let Some(c) = rest.split_whitespace().skip_while(|t| *t != "cov:").nth(1) {
+                            cov = cov.max(c.parse().unwrap_or(0));
                         }
                     }
                 }
+            }
+            if t.jobs_mode {
+                execs = job_execs;
             }
             if execs == 0 {
                 let tail: Vec<&str> = err.lines().rev().take(6).collect();
